@@ -29,6 +29,21 @@ Theorem C14_fifo_linearisable :
 Proof. exact fifo_linearisable. Qed.
 Print Assumptions C14_fifo_linearisable.
 
+(* per-producer order with the producer taken from the history: [bq_puts_by] lists the puts as
+   (producing thread, value) in section order; the values handed out so far are exactly its first
+   n entries, hence for every producer p the handed-out elements of p are a prefix of p's puts *)
+Theorem C14_per_producer_order :
+  (forall progs s, reach bq_body (init_sys [] progs) s ->
+     let tagged := bq_puts_by (hist s) in let n := length (rets (hist s)) in
+     map snd tagged = bq_puts (hist s) /\ map snd (firstn n tagged) = rets (hist s) /\
+     forall p, exists rest, filter (put_by p) tagged = filter (put_by p) (firstn n tagged) ++ rest) /\
+  (forall cap progs s, reach (bbq_body cap) (init_sys [] progs) s ->
+     let tagged := bbq_puts_by (hist s) in let n := length (rets (hist s)) in
+     map snd tagged = bbq_puts (hist s) /\ map snd (firstn n tagged) = rets (hist s) /\
+     forall p, exists rest, filter (put_by p) tagged = filter (put_by p) (firstn n tagged) ++ rest).
+Proof. exact per_producer_order. Qed.
+Print Assumptions C14_per_producer_order.
+
 (* in EVERY reachable state: handed out ++ still queued = put (nothing lost, nothing invented,
    nothing duplicated) *)
 Theorem C14_nothing_lost :
@@ -60,6 +75,20 @@ Theorem C14_no_stuck_waiter :
       Forall (fun th => finished th \/ (st th = Waiting latchCond /\ (shared s > 0)%Z)) (threads s))).
 Proof. exact no_stuck_waiter. Qed.
 Print Assumptions C14_no_stuck_waiter.
+
+(* the ranking argument behind "quiescence is reached" (any monitor body, in particular the three
+   of C14): [measure] strictly decreases with every step that is not an injected spurious
+   wake-up and grows by 2 with a spurious wake-up.  So from every reachable state EVERY schedule
+   makes at most measure + 2 * (number of spurious wake-ups) further steps, a schedule without
+   spurious wake-ups at most [measure s] steps, and a quiescent reachable state exists - in which, by
+   C14_no_stuck_waiter, whoever is still blocked is blocked with its condition genuinely false. *)
+Theorem C14_quiescence_reached : forall (S op res : Type) (body : op -> S -> outcome S res) s0 progs (s : sys S op res),
+  reach body (init_sys s0 progs) s ->
+  (forall ls s', run body s ls = Some s' -> measure s' + nonspur ls <= measure s + 2 * nspur ls) /\
+  (forall ls s', run body s ls = Some s' -> nspur ls = 0 -> length ls <= measure s) /\
+  (exists ls s', run body s ls = Some s' /\ nspur ls = 0 /\ reach body (init_sys s0 progs) s' /\ quiescent body s').
+Proof. exact quiescence_reached. Qed.
+Print Assumptions C14_quiescence_reached.
 
 (* the countDown() that brings the count to zero empties the wait set: every thread that was
    waiting is released (Signalled, same program position) by that one step *)
@@ -135,4 +164,30 @@ Proof.
     vm_compute. reflexivity.
   - vm_compute. reflexivity.
   - vm_compute. repeat split; auto. discriminate.
+Qed.
+
+(* two producers: the tagged history attributes each handed-out value to its producer *)
+Example C14_ex_two_producers :
+  exists s, reach bq_body (init_sys [] [[BPut 11%Z; BPut 12%Z]; [BPut 21%Z]; [BTake; BTake]]) s /\
+            bq_puts_by (hist s) = [(0, 11%Z); (1, 21%Z); (0, 12%Z)] /\ rets (hist s) = [11%Z; 21%Z] /\
+            filter (put_by 0) (firstn 2 (bq_puts_by (hist s))) = [(0, 11%Z)].
+Proof.
+  eexists. split.
+  - eapply reach_run; [apply reach_refl|].
+    instantiate (2 := [LAcquire 0; LBody 0 []; LAcquire 1; LBody 1 []; LAcquire 0; LBody 0 [];
+                       LAcquire 2; LBody 2 []; LAcquire 2; LBody 2 []]).
+    vm_compute. reflexivity.
+  - vm_compute. auto.
+Qed.
+
+(* the measure of a concrete start state, and a spurious wake-up raising it by 2 *)
+Example C14_ex_measure :
+  measure (init_sys ([] : list Z) [[BTake]; [BPut 1%Z]] : sys (list Z) bq_op qres) = 20 /\
+  exists s s', reach bq_body (init_sys [] [[BTake]; [BPut 1%Z]]) s /\ step bq_body s (LSpurious 0) = Some s' /\
+               measure s' = measure s + 2.
+Proof.
+  split; [reflexivity|]. eexists. eexists. split; [|split].
+  - eapply reach_run; [apply reach_refl|]. instantiate (2 := [LAcquire 0; LBody 0 []]). vm_compute. reflexivity.
+  - vm_compute. reflexivity.
+  - vm_compute. reflexivity.
 Qed.
